@@ -3,32 +3,76 @@
     written from the XML Schema recommendation), C06/Model.v (Spyne's schema emitter, XML
     writer and soft validation) and the tables generated from the emitter's source
     (Gen/XsdEmit.v, Gen/NumTypes.v). *)
-From SpyneV Require Import C06.Spec C06.Closure C06.LeafProofs C06.StructProofs C06.ClosureProofs C06.Main.
+From SpyneV Require Import C06.Spec C06.Closure C06.LeafProofs C06.StructProofs C06.ClosureProofs C06.DecProofs C06.Main.
 
 (** Every document Spyne writes for a value that satisfies the declared constraints is valid
     against the schema Spyne publishes — for every well-formed universe (multi-namespace,
     inheritance, XmlAttribute members, choice groups, Array classes, max_occurs > 1,
     defaults, restrictions on every leaf class), every class of it, every conformant value
-    and every nesting depth.  [resolves_b] is the decidable check that the published schema
-    defines every name it refers to (evaluated for each generated universe by the
-    correspondence); [patterns_known] / [constants_ok] / [opq_ok] are the hypotheses on the
-    libraries the leaf codecs delegate to. *)
-Theorem C06_emitted_valid :
+    and every nesting depth.
+    [resolves_b] is the decidable check that the published schema defines every name it refers
+    to (evaluated for each generated universe by the correspondence).  [patterns_known],
+    [constants_ok] and the [opq_ok] half of [wire_ok] are the hypotheses on the libraries the
+    delegated leaf codecs call.  Integers, strings, booleans and decimal.Decimal need none.
+    PARTIAL in two named regions, both known findings of the pinned tree:
+      * a Decimal must be one that str() writes without exponent ([wire_ok]; the statement
+        without this guard is refuted below: C06_decimal_wire_refuted);
+      * None may not stand where Spyne writes an xsi:nil element of a class with a required
+        XmlAttribute ([nil_ok] inside [vconf]; refuted below: C06_nil_required_refuted). *)
+Theorem C06_emitted_valid_partial :
   forall (pat : text -> option re) (olex : okind -> text -> option Z) (ord : okind -> text -> out Z)
          (U : univ) (tns : text),
-    dec_leaf_hyp pat olex ->
     wf_univ U = true -> resolves_b (schema_of U tns) U = true ->
     patterns_known pat U -> constants_ok olex ord U ->
     forall n c cl v e m,
       get_klass U c = Some cl -> v <> NNone ->
-      vconf U (opq_ok olex ord) n (DRef c) v = true ->
+      vconf U (wire_ok olex ord) n (DRef c) v = true ->
       emit U n (DRef c) None (k_ns cl) (k_name cl) v = Ok e ->
       (n + length U < m)%nat ->
       valid_doc pat olex m (schema_of U tns) (wire e) = true.
 Proof.
-  intros pat olex ord U tns Hdec Hwf Hres. apply (emitted_doc_valid pat olex ord U (schema_of U tns) Hdec Hwf).
+  intros pat olex ord U tns Hwf Hres.
+  apply (emitted_doc_valid pat olex ord U (schema_of U tns) (dec_wire_holds pat olex) (dec_literal_holds pat olex) Hwf).
   exact (resolves_b_sound _ _ Hres).
 Qed.
+
+(** what the schema emitter writes for a Decimal facet, enumeration or default value
+    (format(value, 'f')) is an xs:decimal literal of the same number, for EVERY finite Decimal *)
+Theorem C06_decimal_literal :
+  forall d, (0 <= d_coeff d)%Z -> xs_decimal (dec_plain d) = Some (plain_value (d_neg d) d) /\ same_num (plain_value (d_neg d) d) d.
+Proof. intros d H. split; [exact (xs_decimal_plain d H)|exact (plain_value_same d H)]. Qed.
+
+Theorem C06_decimal_literal_valid :
+  forall pat olex st d, st_base st = BDec -> wf_stype st = true -> leaf_conf st (SDec d) = true ->
+    st_simple_ok pat olex st (schema_text BDec (SDec d)) = true.
+Proof. exact dec_literal_holds. Qed.
+
+(** ... while what Spyne writes on the wire for a Decimal (str(value)) is not: the full
+    statement is refuted by Decimal('1E+10') in an unrestricted Decimal member *)
+Definition ex_dec : stype := mkstype BDec (mkfacets None None None None [] None None None None None (Fin 1024)) None.
+Theorem C06_decimal_wire_refuted :
+  exists st d, wf_stype st = true /\ leaf_conf st (SDec d) = true
+               /\ st_simple_ok (fun _ => None) (fun _ _ => None) st (dec_print decimal_printer d) = false.
+Proof. exists ex_dec, (mkdec false 1 10). vm_compute. repeat split. Qed.
+
+(** None for a nillable member whose class has a required XmlAttribute: Spyne writes
+    <x xsi:nil="true"/>, which the schema it publishes rejects (the attribute is required on a
+    nilled element too).  Class K0 {a : XmlAttribute(Unicode, min_occurs=1)}, class K1
+    {x : K0, min_occurs=1, nillable}, value K1(x=None). *)
+Definition nil_U : univ :=
+  [ mkklass [117; 114; 110; 58; 116] [75; 48] None
+      [ IOne (mkfld [97] (DLeaf (mkstype (BStr false) (mkfacets None None None None [] None None None None None PosInf) None))
+                    1 (Fin 1) true FAttr None None) ];
+    mkklass [117; 114; 110; 58; 116] [75; 49] None
+      [ IOne (mkfld [120] (DRef 0%nat) 1 (Fin 1) true FElem None None) ] ].
+Theorem C06_nil_required_refuted :
+  let tns := [117; 114; 110; 58; 116] in
+  wf_univ nil_U = true /\ resolves_b (schema_of nil_U tns) nil_U = true
+  /\ match emit nil_U 3 (DRef 1%nat) None tns [75; 49] (NObj 1%nat [NNone]) with
+     | Ok e => valid_doc (fun _ => None) (fun _ _ => None) 8 (schema_of nil_U tns) (wire e)
+     | _ => true
+     end = false.
+Proof. vm_compute. repeat split. Qed.
 
 (** Leaf level, both directions at once: on the text of ANY integer (conformant or not) the
     published simple type of a customised integer class and soft validation reach the same
@@ -94,7 +138,7 @@ Example C06_ex_emitted_valid :
   let tns := [117; 114; 110; 58; 116] in
   wf_univ ex_U = true
   /\ resolves_b (schema_of ex_U tns) ex_U = true
-  /\ vconf ex_U (opq_ok olex ord) 4 (DRef 1%nat) ex_v = true
+  /\ vconf ex_U (wire_ok olex ord) 4 (DRef 1%nat) ex_v = true
   /\ match emit ex_U 4 (DRef 1%nat) None [117; 114; 110; 58; 117] [66] ex_v with
      | Ok e => valid_doc pat olex 8 (schema_of ex_U tns) (wire e)
      | _ => false
